@@ -371,9 +371,18 @@ func runTunnel(e *core.Env) {
 		r := core.NewRNG(e.Seed, stream, i)
 		d := genCase(e, r)
 		rec.Begin("tunnel", i, fmt.Sprintf("%+v", d))
-		done := core.Watchdog(3*time.Minute, func() { tunnelCase(e, i, r, &d) })
+		// Each case runs in a synctest bubble: the 30 s timestamp windows of the protocol are measured on the bubble's
+		// clock, which stands still while the case runs, so a loaded machine cannot age a request or response; and a
+		// case whose goroutines all end up blocked for good is a decidable outcome instead of a wall-clock timeout.
+		dead := ""
+		done := core.Watchdog(10*time.Minute, func() {
+			dead = core.Bubble(e, func() { tunnelCase(e, i, r, &d) })
+		})
 		if !done {
 			rec.Inconclusive("watchdog")
+		}
+		if dead != "" {
+			rec.Violate("tunnel", i, core.Sig("kind", "transfer_blocked_for_good", "part", e.Part), d, "case %d: every goroutine of the transfer is blocked for good (a side waits for bytes that were written, or for an end-of-stream that was sent): %s", i, dead)
 		}
 		rec.Eval()
 	})
